@@ -518,6 +518,10 @@ func (r *Run) differential(tag string, A *build, withRecipes bool) {
 				r.fail("layout-search", fmt.Sprintf("query %s on build one-batch failed: %v", q.Desc, err))
 				return
 			}
+			if a.noScore != a.set {
+				r.fail("layout-match-set", fmt.Sprintf("query %s on build one-batch: with scoring turned off it matches {%s}, scored {%s}", q.Desc, a.noScore, a.set))
+				return
+			}
 			r.refAnswers[i] = a
 		}
 		r.stats.Probes["diff-reference-builds"]++
@@ -531,6 +535,10 @@ func (r *Run) differential(tag string, A *build, withRecipes bool) {
 			}
 			ref := r.refAnswers[i]
 			r.stats.Probes["diff-comparisons"]++
+			r.stats.Probes["diff-score-none-comparisons"]++
+			if strings.HasPrefix(q.Desc, "bool{must[term ") && !strings.Contains(q.Desc, "should[") && got.set != "" {
+				r.stats.Probes["diff-flat-term-conjunction-with-matches"]++
+			}
 			switch {
 			case got.set != ref.set:
 				r.fail("layout-match-set", fmt.Sprintf("query %s: build %s matches {%s}, build one-batch matches {%s} (same %d documents)", q.Desc, b.name, got.set, ref.set, len(docs)))
